@@ -79,6 +79,7 @@ QUICK = {"C01": ["SQ1", "SQ3", "A", "E"], "C02": ["E", "A", "SQ1"], "C03": ["SQ1
          "C16": ["SQ1", "SQ2", "SQ3", "R"]}
 EXHAUSTIVE = {"SX", "SQ1", "SQ2", "SQ3", "RX", "E", "E3"}
 PAR = max(2, min(8, vlib.NCPU // 2))     # concurrent harness processes / J3 JVMs
+ROUNDTRIPS = 3        # per harness shard: states at which the genesis export/import round trip is recorded
 NODE_CAP_QUICK = 80000
 NODE_CAP_THOROUGH = 400000
 J1_INVS = "InvC01 InvC02 InvC03 InvC04 InvC05"
@@ -199,7 +200,7 @@ def run_harness(vh, fam, work, nodes, alpha, expand, seed, shards, reps):
         cmd = [vh, "chain", "explore", "--config", os.path.join(work, "world.json"), "--paths", os.path.join(work, "paths.%d.ndjson" % i),
                "--alphabet", os.path.join(work, "alphabet.json"), "--out", out, "--nodes", str(per), "--seed", str(seed + i),
                "--shard", "0", "--shards", "1", "--reps", str(reps), "--reps-audit", str(max(4, reps)),
-               "--maxheight", str(maxh), "--all-paths"] + (["--second-app"] if reps >= 3 else [])
+               "--maxheight", str(maxh), "--all-paths", "--roundtrips", str(ROUNDTRIPS)] + (["--second-app"] if reps >= 3 else [])
         env = dict(os.environ, GOGC="50", GOMAXPROCS="2")
         rc, txt = vlib.run(cmd, timeout=3000, env=env)
         if rc != 0:
